@@ -440,7 +440,7 @@ def _run(ctx, rng, sess):
         for f in wc.corpus_files(["C17"]):
             files.append(("corpus:" + os.path.relpath(f, vlib.VERIF), open(f).read()))
         files += boundary_cases()
-        ex_files, nseq = exhaustive_allocator(7 if ctx.thorough else 5)
+        ex_files, nseq = exhaustive_allocator(6 if ctx.thorough else 5)
         ctx.cov(exhaustive_allocator_histories=nseq)
         for i, t in enumerate(ex_files):
             files.append(("exhaustive-allocator:%d" % i, t))
@@ -450,9 +450,9 @@ def _run(ctx, rng, sess):
             seq += [(30000, 8, True), (3000, 3, True)] + [(rng.randint(1025, 2600), rng.randint(1, 8), rng.random() < 0.5) for _ in range(40)]
         for (total, keep, ch) in seq:
             files.append(("sequential:%d/keep%d" % (total, keep), gen_sequential(rng, total, keep, ch)))
-        n = 40000 if ctx.thorough else 1000
+        n = 10000 if ctx.thorough else 1000
         for i in range(n):
-            ln = rng.randint(20, 120) * (2 if ctx.thorough else 1)
+            ln = rng.randint(20, 120) if not ctx.thorough else rng.randint(20, 180)
             files.append(("interleaved:%d" % i, gen_interleaved(rng, ln, malformed=rng.choice([0.0, 0.15, 0.4]),
                                                                  p_shared=rng.choice([0.0, 0.5, 1.0]))))
     def one(f):
@@ -515,7 +515,7 @@ def _run(ctx, rng, sess):
             worlds_built=st.get("worlds", 0), max_worlds_alive=st.get("max_live", 0), max_world_id_seen=st.get("max_id", 0),
             ops_executed=st.get("ops", 0), frame_checks=st.get("frame_checks", 0), foreign_handle_checks=st.get("foreign_checks", 0),
             own_handle_checks=st.get("own_checks", 0),
-            exhaustive_allocator_len=(7 if ctx.thorough else 5),
+            exhaustive_allocator_len=(6 if ctx.thorough else 5),
             oracle_failures=len(failures["oracle"]), aborts=len(failures["abort"]), tie_differences=len(failures["tie"]),
             trusted_base=["Lean 4.33 kernel and the axioms listed under axioms_used",
                           "harness/worlds_driver.cpp (+ the included world_driver.cpp) and its in-harness oracle; tools/props/c17.py",
